@@ -302,10 +302,12 @@ impl<'a> Model<'a> {
 
     /// The lookup of C01.  `exclude` = the requesting fixture itself for a self-named parameter.
     pub fn resolve(&self, file: &str, name: &str, exclude: Option<usize>) -> Expect {
-        // 1. same file: the last definition
-        let same: Vec<usize> = self.defs_in(file, name).into_iter().filter(|i| Some(*i) != exclude).collect();
-        if let Some(best) = same.iter().copied().max_by_key(|i| self.defs[*i].line) {
-            return Expect { accept: [best].into_iter().collect(), via: Via::SameFile, none_ok: false };
+        // 1. same file: the last definition - earlier ones are dead (the name was rebound), so when the last one is the
+        //    requesting fixture itself the lookup goes outward, not back to an overwritten definition
+        if let Some(best) = self.defs_in(file, name).into_iter().max_by_key(|i| self.defs[*i].line) {
+            if Some(best) != exclude {
+                return Expect { accept: [best].into_iter().collect(), via: Via::SameFile, none_ok: false };
+            }
         }
         // 1b. fixtures the using module imports itself (a test module doing `from .helpers import fix`)
         if !file.ends_with("conftest.py") {
@@ -324,7 +326,8 @@ impl<'a> Model<'a> {
         while let Some(d) = dir {
             let c = join_rel(&d, "conftest.py");
             if self.files.contains(&c) && c != file {
-                let own: BTreeSet<usize> = self.defs_in(&c, name).into_iter().filter(|i| Some(*i) != exclude).collect();
+                // (only the last of several same-named definitions of the conftest is alive)
+                let own: BTreeSet<usize> = self.defs_in(&c, name).into_iter().max_by_key(|i| self.defs[*i].line).into_iter().filter(|i| Some(*i) != exclude).collect();
                 let imp: BTreeSet<usize> = self.imports_of(&c).get(name).cloned().unwrap_or_default().into_iter().filter(|i| Some(*i) != exclude).collect();
                 // the requesting fixture itself is reachable through this conftest's imports: definitions of the
                 // name that the import chain shadows with it are the open corner described above
